@@ -13,7 +13,12 @@ ENTRY = ["comment", "annotate", "move", "rapid", "move_absolute", "rapid_absolut
 def gen_text(rng, style):
     pairs = {"(": ")", "[": "]", "<": ">", '"': '"', "'": "'", "/*": "*/"}
     pieces = ["\n", "\r", "\r\n", style, pairs.get(style, ""), "G1 X100", "M3 S24000", " ", "  ", "x", "é", "温度", "*", "/", "**//", "*/*",
-              "(", ")", ";", "end", "\t", "\x0b", " ", "{0}", "{", "}", "%s", "\\n", "a) G1 X100 (b", "*/ M3 /*", "; G28"]
+              "(", ")", ";", "end", "\t", "\x0b", " ", "{0}", "{", "}", "%s", "\\n", "a) G1 X100 (b", "*/ M3 /*", "; G28",
+              # compatibility variants of the delimiters (they fold to the ASCII ones under Unicode normalisation) and the
+              # Unicode line separators: to the machine they are ordinary comment text and must stay that
+              "\uff09", "\uff08", "\ufe5a", "\ufe59", "\uff3d", "\uff3b", "\uff1e", "\uff1c", "\uff02", "\uff07", "\uff0a\uff0f",
+              "\uff0f\uff0a", "\uff1b", "\ufe54", "\uff03", "\uff05", "\uff0f\uff0f", "\u2028", "\u2029", "\x85",
+              "\uff09 G1 X999 \uff08", "\uff0a\uff0f M3 S1 \uff0f\uff0a", "\uff02 G28 \uff02"]
     n = rng.choice([0, 1, 1, 2, 3, 5, 8])
     t = "".join(rng.choice(pieces) for _ in range(n))
     if rng.random() < 0.1:
